@@ -114,11 +114,13 @@ func (d *tDecoder) Decode(b []byte, base unsafe.Pointer, sd *structDesc, maxdept
 		p := unsafe.Add(base, f.Offset) // pointer to the field
 
 		t := f.Type
+		if t.FixedSize > 0 && len(b)-i < t.FixedSize {
+			// before the pointee of an optional field is allocated: it comes uncleared
+			// from the allocator and would be left unwritten in the destination
+			return i, io.ErrShortBuffer
+		}
 		p = d.mallocIfPointer(t, p)
 		if t.FixedSize > 0 {
-			if len(b)-i < t.FixedSize {
-				return i, io.ErrShortBuffer
-			}
 			i += decodeFixedSizeTypes(t.T, b[i:], p)
 		} else {
 			var n int
